@@ -247,6 +247,10 @@ class TraversePredicate:
         if 'traverse' in context:
             return True
         m = context['match']
+        if 'traverse' in m:
+            # the route pattern itself captures ``traverse`` (``*traverse`` or
+            # ``{traverse}``): the ``traverse=`` argument is ignored, as documented
+            return True
         tvalue = self.tgenerate(m)  # tvalue will be urlquoted string
         m['traverse'] = traversal_path(tvalue)
         # This isn't actually a predicate, it's just a infodict modifier that
